@@ -235,15 +235,35 @@ func VH_C05_nested() {
 	m.finish(err)
 }
 
+type c05FlowWrapper struct {
+	*Flow
+	m *c05Mon
+}
+
+func (w *c05FlowWrapper) Prep(ctx context.Context, s *SharedStore) (any, error) {
+	w.m.calls++
+	return w.Flow.Prep(ctx, s)
+}
+func (w *c05FlowWrapper) Exec(ctx context.Context, p any) (any, error) {
+	w.m.calls++
+	return w.Flow.Exec(ctx, p)
+}
+
 // context already done before the run: no callback at all, error matches the context's error
 func VH_C05_predone() {
 	vUnwind(6)
 	m := &c05Mon{ctx: vNewRunCtx("run")}
 	m.ctx.cancel(vNondet[bool]("deadlineKind"))
 	m.cancelled = true
-	which := vChoice("shape", 4)
+	which := vChoice("shape", 5)
 	var err error
 	switch which {
+	case 4:
+		// a user type that embeds *Flow and has its own Prep and Exec (an orchestrating node that
+		// prepares something first) is a node like any other for Run
+		vCover("pre-cancelled-node-embedding-a-flow")
+		w := &c05FlowWrapper{Flow: NewFlow(c05NewProbe(m, false).node), m: m}
+		_, err = Run(m.ctx, w, NewSharedStore())
 	case 3:
 		// a flow whose START node is a batch node, started through flow.Run
 		vCover("pre-cancelled-flow-starting-with-a-batch-node")
